@@ -37,7 +37,23 @@ def _tree_rss_kb(pid):
     return total
 
 
+TRANSIENT = ('failed to create thread', 'Resource temporarily unavailable', 'resource temporarily unavailable',
+             'cannot allocate memory', 'Cannot allocate memory')
+
+
 def sh(cmd, cwd=None, env=None, timeout=None, stdin=None):
+    """run a command; `lake` commands are retried when they die of a transient resource shortage (many
+    checks may be running at once), so that machine load is never reported as a broken proof"""
+    for attempt in range(4):
+        rc, out, err, dt = _sh(cmd, cwd, env, timeout, stdin)
+        if rc == 0 or not (isinstance(cmd, list) and cmd and cmd[0] == 'lake') or \
+                not any(t in out + err for t in TRANSIENT):
+            break
+        time.sleep(5 + 10 * attempt)
+    return rc, out, err, dt
+
+
+def _sh(cmd, cwd=None, env=None, timeout=None, stdin=None):
     t0 = time.time()
     try:
         if isinstance(cmd, list) and cmd and cmd[0] == 'lake':
